@@ -279,7 +279,13 @@ def gen_case(S, tier):
                                        "pars": [round(np.log10(base * 0.7), 6), round(np.log10(base * 1.3), 6)]})
                 else:
                     parameters.append({"name": snm, "dist": "unif", "pars": [round(base * 0.7, 6), round(base * 1.3, 6)]})
-                if rng.random() < 0.4:
+                more = [s for s in ref.state_names if s != snm and x0[ref.state_names.index(s)] > 0]
+                if more and rng.random() < 0.35:
+                    # a second inferred initial state (listed in whatever order the shuffle below gives)
+                    s2 = rng.choice(more)
+                    b2 = x0[ref.state_names.index(s2)]
+                    parameters.append({"name": s2, "dist": "unif", "pars": [round(b2 * 0.8, 6), round(b2 * 1.2, 6)]})
+                elif rng.random() < 0.4:
                     others = [s for s in ref.state_names if s != snm]
                     constraint = [float(sum(x0)), rng.choice(others)]
         if rng.random() < (0.75 if len(parameters) > len(inferred) else 0.5):
